@@ -174,6 +174,40 @@ func c11Extra(outDir string, meta *Meta) {
 			}
 		}
 	}
+	// ---- (3c) a scheme-relative reference (//host/path) names another host: it is never read from the
+	// referring server, and never from the local file system ----
+	for _, rootURI := range []string{"https://base.example/api/root.json", "/work/api/root.json"} {
+		for _, ref := range []string{"//cdn.example/schemas/other.json", "//cdn.example/schemas/other.json#/components/schemas/X"} {
+			whole := `{"openapi":"3.0.3","info":{"title":"a","version":"1"},"paths":{},"components":{"schemas":{"X":{"type":"string","description":"wrong place"}}}}`
+			root := `{"openapi":"3.0.3","info":{"title":"r","version":"1"},"paths":{},"components":{"schemas":{"Y":{"$ref":"` + ref + `"}}}}`
+			// what a wrong resolution would find
+			store := map[string]string{rootURI: root, "https://base.example/schemas/other.json": whole, "/schemas/other.json": whole}
+			var reads []string
+			loader := openapi3.NewLoader()
+			loader.IsExternalRefsAllowed = true
+			loader.ReadFromURIFunc = func(_ *openapi3.Loader, u *url.URL) ([]byte, error) {
+				reads = append(reads, u.String())
+				if d, ok := store[u.String()]; ok {
+					return []byte(d), nil
+				}
+				return nil, fmt.Errorf("not found: %s", u)
+			}
+			desc := map[string]any{"root": rootURI, "ref": ref}
+			meta.Histogram["scheme-relative references"]++
+			ru, _ := url.Parse(rootURI)
+			pn := catchPanic(func() { _, _ = loader.LoadFromURI(ru) })
+			if pn != nil {
+				viol("scheme-relative:panic", desc, fmt.Sprint(pn))
+				continue
+			}
+			for _, rd := range reads[1:] {
+				if !strings.Contains(rd, "cdn.example") {
+					viol("scheme-relative:reference-to-another-host-read-elsewhere", desc, "reads: "+strings.Join(reads, ", "))
+					break
+				}
+			}
+		}
+	}
 	// ---- (4) LoadFromFile: the root that is read is the file that was named, whatever characters its name has ----
 	dir2, _ := filepath.Abs(filepath.Join(outDir, "names"))
 	os.RemoveAll(dir2)
